@@ -128,6 +128,7 @@ def _p2pkh(i):
 
 
 P2PKH = [_p2pkh(i) for i in range(6)]
+P2PKH_EXTRA = [_p2pkh(100 + i) for i in range(18)]     # used when a run wants little script overlap
 SCRIPTS = P2PKH + [
     b'',                    # empty script
     b'\x51',                # OP_1
@@ -241,6 +242,8 @@ class ChainGen:
         w = self.w
         if rng.random() < w['p_opret']:
             return rng.choice(SCRIPTS[8:])
+        if w.get('wide_pool') and rng.random() < 0.7:
+            return rng.choice(P2PKH_EXTRA)
         return rng.choice(SCRIPTS[:8])
 
     def _outs(self, rng, total, n=None):
